@@ -204,6 +204,7 @@ def plan(tier):
     for i in range(n):
         jobs.append({"part": "gen", "examples": per})
     jobs.append({"part": "ident", "examples": 1500 if tier == "quick" else 40000})
+    jobs.append({"part": "strlen"})
     return jobs
 
 
@@ -228,6 +229,14 @@ def run_job(ctx, job):
             for d in discs:
                 ctx.violation(d, "pair", {"t": t, "v": v})
         ctx.exhaustive_parts.append("all values of " + job["type"])
+    elif job["part"] == "strlen":
+        for t, v in C.boundary_string_cases():
+            discs = check_pair(t, v)
+            if t["k"] != "STRINGN" or t.get("cs", 1) == 1:
+                discs += check_blamed(T("struct", members=[["s", t], ["tail", T("UINT")]]), {"s": v, "tail": 7})
+            ctx.case(("strlen", t["k"], t.get("cs"), len(v)), True, ["string", "string-length-boundary"])
+            for d in discs:
+                ctx.violation(d, "pair", {"t": t, "v": v})
     elif job["part"] == "gen":
         @st.composite
         def cases(draw):
